@@ -833,6 +833,9 @@ def compare(ctx: core.Ctx, cases: list[dict], drv: core.Driver, label="corr"):
         ctx.count("n_nodes", "0-4" if n <= 4 else "5-8" if n <= 8 else "9-40" if n <= 40 else "41-300" if n <= 300 else ">300")
         ctx.count("threshold", "none" if c.get("thr") is None else c.get("thr_kind"))
         ctx.count("idtype", c.get("idtype")); ctx.count("linker_input_layout", c.get("layout", "n/a"))
+        if c["engine"] == "spark" and core.timed_out(r):
+            ctx.count("excluded", "spark: no answer within the time limit / JVM heap exhausted")
+            continue
         if core.impl_error(r):
             ctx.count("impl_error", r["__error__"])
             problems.append((c, f"real code raised {r['__error__']}: {r['text'][:300]}", True, r))
